@@ -224,7 +224,8 @@ def render(atoms, variant='p'):
 # ----------------------------------------------------------------------------- scaling (b)
 
 SCALING = ['assign_chain', 'call_chain', 'inherit_chain', 'diamonds', 'call_tree',
-           'nested_containers', 'nested_closures', 'decorator_chain', 'import_chain']
+           'nested_containers', 'nested_closures', 'decorator_chain', 'import_chain',
+           'assign_diamonds', 'attr_diamonds']
 
 
 def scaling(family, n):
@@ -278,6 +279,17 @@ def scaling(family, n):
         for k in range(n, -1, -1):
             L.append('@d%d' % k)
         L += ['def h():', '    return K()', 'r = h()']
+    elif family == 'assign_diamonds':
+        # binary tree of plain statements: nothing but the per-node inference cap bounds it
+        L.append('a0 = K()')
+        for k in range(1, n + 1):
+            L.append('a%d = a%d if c else a%d' % (k, k - 1, k - 1))
+        L.append('r = a%d' % n)
+    elif family == 'attr_diamonds':
+        L += ['class S:', '    def __init__(self):', '        self.a0 = K()']
+        for k in range(1, n + 1):
+            L.append('        self.a%d = self.a%d if c else self.a%d' % (k, k - 1, k - 1))
+        L.append('r = S().a%d' % n)
     elif family == 'import_chain':
         files['c0.py'] = 'class K:\n    x = 1\nv = K()\n'
         for k in range(1, n + 1):
